@@ -20,6 +20,10 @@ _VERIF_ENABLED = _os.environ.get("MICROJS_VERIF") == "1"
 _VERIF_HOOK = None
 
 
+# ECMAScript LineTerminator code points (what . excludes and ^/$ see under m)
+LINE_TERMINATORS = "\n\r\u2028\u2029"
+
+
 class RegexTimeoutError(Exception):
     """Raised when regex execution times out."""
 
@@ -238,7 +242,7 @@ class RegexVM:
                     pc, sp, captures, registers = self._backtrack(stack)
 
             elif opcode == Op.DOT:
-                if sp >= len(string) or string[sp] == "\n":
+                if sp >= len(string) or string[sp] in LINE_TERMINATORS:
                     if not stack:
                         return None
                     pc, sp, captures, registers = self._backtrack(stack)
@@ -378,7 +382,7 @@ class RegexVM:
                 pc += 1
 
             elif opcode == Op.LINE_START_M:
-                if sp != 0 and (sp >= len(string) or string[sp - 1] != "\n"):
+                if sp != 0 and string[sp - 1] not in LINE_TERMINATORS:
                     if not stack:
                         return None
                     pc, sp, captures, registers = self._backtrack(stack)
@@ -394,7 +398,7 @@ class RegexVM:
                 pc += 1
 
             elif opcode == Op.LINE_END_M:
-                if sp != len(string) and string[sp] != "\n":
+                if sp != len(string) and string[sp] not in LINE_TERMINATORS:
                     if not stack:
                         return None
                     pc, sp, captures, registers = self._backtrack(stack)
